@@ -4,9 +4,16 @@ import math
 from hypothesis import strategies as st
 
 
+PAST = st.fixed_dictionaries({
+    'drot': st.floats(-170, 170), 'fscale': st.floats(-0.4, 0.4),
+    'dcrval': st.tuples(st.floats(-30, 30), st.floats(-30, 30)).map(list),
+    'dcrpix': st.tuples(st.floats(-40, 40), st.floats(-40, 40)).map(list)})
+
+
 def wcs_specs(projs=('TAN', 'SIN', 'CAR'), frames=('icrs', 'fk5', 'fk4',
                                                     'galactic'),
-              scale=(0.01 / 3600.0, 0.1), parities=(-1, 1), max_lat=85.0):
+              scale=(0.01 / 3600.0, 0.1), parities=(-1, 1), max_lat=85.0,
+              past=True):
     lo, hi = math.log10(scale[0]), math.log10(scale[1])
     rot = st.one_of(st.sampled_from([0.0, 90.0, 180.0, 270.0, 33.0, -75.0,
                                      120.0]),
@@ -20,6 +27,9 @@ def wcs_specs(projs=('TAN', 'SIN', 'CAR'), frames=('icrs', 'fk5', 'fk4',
         'crval': st.tuples(st.floats(0, 360, exclude_max=True),
                            st.floats(-max_lat, max_lat)).map(list),
         'crpix': st.tuples(st.floats(-50, 400), st.floats(-50, 400)).map(list),
+        # the WCS object's past (vf.spec.build_wcs): another state, used,
+        # then edited in place
+        'past': st.one_of(st.none(), st.none(), PAST) if past else st.none(),
     })
 
 
